@@ -61,6 +61,11 @@ CHECKS = {
         "note": "Trusted: the projection functions of the harness (exported fields / re-parse). Bounds as C08.",
         "technique": TLA + "struct-versus-reparse predicate over spec-generated and recorded edit sessions",
     },
+    "C16": {
+        "text": "Model-based: the bulk setters are operators of ModfileModel (exact requested set, one entry per path); TLC enumerates requirement/use layouts x go versions x requested lists, checks exactness on the model and prints each case; the harness applies the real setter and records the output's block structure, which TLC judges with the property's predicates (ExactSet, BlockSorted with the three documented comparators over Semver.tla, OnePerPath, CommentsKept, Separated); random files with up to 24 requirements likewise. One finding recorded (go directives with a pre-release suffix), the SetUse defect repaired.",
+        "note": "Trusted: layout renderer, block-structure projection, the reading of 'one uncommented line or block'. Bounds: path/version vocabulary, layout family.",
+        "technique": TLA + "spec-generated (layout, request) cases replayed into the setters, output block structures trace-validated against TLA+ layout predicates",
+    },
 }
 
 NOT_APPLICABLE = {}
